@@ -32,8 +32,11 @@ for sid in sorted(os.listdir(os.path.join(ROOT, "seeded"))):
         print(sid, {k: v["verdict"] for k, v in res.items()}, flush=True)
     finally:
         shutil.rmtree(tmp, ignore_errors=True)
-if not only:
-    with open(os.path.join(ROOT, "seeded", "MATRIX.md"), "w") as f:
-        f.write("# Seeded changes x checks (quick tier, seed 0)\n\n| seeded change | breaks | result per check |\n|---|---|---|\n")
-        for sid, st, res in rows:
+with open(os.path.join(ROOT, "seeded", "MATRIX.md"), "w") as f:
+    f.write("# Seeded changes x checks (quick tier, seed 0)\n\nWritten by tools/matrix.py from seeded/*/meta.json (detected_by).\n\n"
+            "| seeded change | breaks | result per check |\n|---|---|---|\n")
+    for sid in sorted(os.listdir(os.path.join(ROOT, "seeded"))):
+        mp = os.path.join(ROOT, "seeded", sid, "meta.json")
+        if os.path.exists(mp):
+            res = json.load(open(mp)).get("detected_by", {})
             f.write(f"| {sid} | {sid.split('-')[0]} | " + ", ".join(f"{k}: {v['verdict']}" for k, v in res.items()) + " |\n")
